@@ -846,6 +846,58 @@ mod if_alloc {
         }
     }
 
+    /// A reference to the state of a shared semaphore which does not keep it
+    /// alive and does not change its strong reference count (verification
+    /// hook): the state can be inspected while only futures and releasers own
+    /// it.
+    #[cfg(futures_intrusive_verif)]
+    pub struct VerifSharedSemaphore<MutexType: RawMutex> {
+        state: alloc::sync::Weak<LockApiMutex<MutexType, SemaphoreState>>,
+    }
+
+    #[cfg(futures_intrusive_verif)]
+    impl<MutexType: RawMutex> core::fmt::Debug
+        for VerifSharedSemaphore<MutexType>
+    {
+        fn fmt(&self, f: &mut core::fmt::Formatter) -> core::fmt::Result {
+            f.debug_struct("VerifSharedSemaphore").finish()
+        }
+    }
+
+    #[cfg(futures_intrusive_verif)]
+    impl<MutexType: RawMutex> VerifSharedSemaphore<MutexType> {
+        /// As `GenericSharedSemaphore::verif_snapshot`; `None` if the state
+        /// has been freed
+        pub fn verif_snapshot(&self) -> Option<crate::verif::Snapshot> {
+            self.state
+                .upgrade()
+                .map(|s| super::verif_hooks::snapshot(&s.lock()))
+        }
+
+        /// As `GenericSharedSemaphore::verif_debug`; `None` if the state has
+        /// been freed
+        pub fn verif_debug(&self) -> Option<alloc::string::String> {
+            self.state
+                .upgrade()
+                .map(|s| alloc::format!("{:?}", *s.lock()))
+        }
+
+        /// Number of owners (handles, futures, releasers) of the state
+        pub fn verif_owners(&self) -> usize {
+            self.state.strong_count()
+        }
+    }
+
+    #[cfg(futures_intrusive_verif)]
+    impl<MutexType: RawMutex> GenericSharedSemaphore<MutexType> {
+        /// Returns a non-owning reference to the shared semaphore state
+        pub fn verif_weak(&self) -> VerifSharedSemaphore<MutexType> {
+            VerifSharedSemaphore {
+                state: Arc::downgrade(&self.state),
+            }
+        }
+    }
+
     #[cfg(futures_intrusive_verif)]
     impl<MutexType: RawMutex> GenericSharedSemaphoreAcquireFuture<MutexType> {
         /// Describes the wait node of this future
